@@ -39,7 +39,7 @@ func stepBudgets(n int) map[string]int {
 
 func workSize(o *Obs) int {
 	n := o.MaxVertices + 8
-	for _, z := range o.Case.IDs {
+	for _, z := range o.UIDs {
 		for _, ch := range o.FactsFor(z).Chains {
 			n += len(ch)
 		}
@@ -94,7 +94,7 @@ func judgeC06(c *fw.Ctx, sc *SnapCase) {
 	// non-trivial: a chain with a repeated centre (reaches kmpDeduplicate / splitRing paths)
 	nt := false
 	if o.Req.D <= 40 {
-		for _, z := range sc.IDs {
+		for _, z := range o.UIDs {
 			if o.FactsFor(z).MaxMult >= 2 {
 				nt = true
 			}
